@@ -127,7 +127,7 @@ theorem nextToken_lineEnd (cls : Cls) (c : Cur) (rest : List Rune)
                   cases hne : (lexNumberLoop cls (c.adv r) TokenType.int [r] false rs).err with
                   | some e => rw [hne] at he; simp at he
                   | none =>
-                    simp only [hne]
+                    simp only []
                     have := (lexNumberLoop_lit cls (c.adv r) [r] rs false .int hne).1 rfl
                     rcases this with ⟨_, e1, _⟩ | ⟨_, _, e1, _⟩ <;>
                       exact (fun h => by simp [mkTok, e1] at h)
@@ -924,5 +924,426 @@ theorem collectFragments_fragWF (cls : Cls) (src : List Rune) (frags : List Frag
       exact walkFragmentsLoop_fragWF (hyp_lexed cls) _ _ ⟨none, ts⟩ [] []
         ⟨allTokens_tokwf cls true src ts hts, allTokens_eolAfter cls true src ts hts⟩
         (fun f hf => by cases hf) _ _ hwf
+
+/-! ## Part 2: two stand-alone descriptions are separated by a blank line -/
+
+/-! ### lexer: the token after an EOL token starts on the next line -/
+
+/-- after an EOL token the lexer stands on the next line -/
+theorem nextToken_eol_nxt (cls : Cls) (c : Cur) (rest : List Rune)
+    (he : (nextToken cls c rest).err = none) :
+    (nextToken cls c rest).tok.ty = .eol →
+      (nextToken cls c rest).cur.nxt.line = (nextToken cls c rest).tok.end_.line + 1 := by
+  induction rest generalizing c with
+  | nil =>
+    unfold nextToken
+    intro h; simp [mkTok] at h
+  | cons r rs ih =>
+    unfold nextToken at he ⊢
+    simp only [] at he ⊢
+    split
+    · rename_i op hop
+      intro h
+      exact absurd h (operatorOf_ne_eol hop).1
+    · rename_i hop
+      simp only [hop] at he
+      by_cases h1 : r = cSLASH
+      · rw [if_pos h1] at he ⊢
+        by_cases h2 : rs.head? = some cSLASH
+        · rw [if_pos h2] at he ⊢
+          rw [litStep_ty _ _ _ he]
+          intro h; cases h
+        · rw [if_neg h2] at he ⊢
+          by_cases h3 : rs.head? = some cSTAR
+          · rw [if_pos h3] at he ⊢
+            rw [litStep_ty _ _ _ he]
+            intro h; cases h
+          · rw [if_neg h3] at he ⊢
+            rw [litStep_ty _ _ _ he]
+            intro h; cases h
+      · rw [if_neg h1] at he ⊢
+        by_cases h2 : r = cQUOTE
+        · rw [if_pos h2] at he ⊢
+          rw [litStep_ty _ _ _ he]
+          intro h; cases h
+        · rw [if_neg h2] at he ⊢
+          by_cases h3 : r = cPIPE
+          · rw [if_pos h3] at he ⊢
+            rw [litStep_ty _ _ _ he]
+            intro h; cases h
+          · rw [if_neg h3] at he ⊢
+            by_cases h4 : r = cNL
+            · rw [if_pos h4] at he ⊢
+              intro _
+              show (c.adv r).nxt.line = (c.adv r).pos.line + 1
+              unfold Cur.adv
+              rw [if_pos h4]
+            · rw [if_neg h4] at he ⊢
+              by_cases h5 : cls.isSpace r = true
+              · rw [if_pos h5] at he ⊢
+                exact ih _ he
+              · rw [if_neg h5] at he ⊢
+                by_cases h6 : cls.isDigit r = true
+                · rw [if_pos h6] at he ⊢
+                  cases hne : (lexNumberLoop cls (c.adv r) TokenType.int [r] false rs).err with
+                  | some e => rw [hne] at he; simp at he
+                  | none =>
+                    simp only []
+                    have := (lexNumberLoop_lit cls (c.adv r) [r] rs false .int hne).1 rfl
+                    rcases this with ⟨_, e1, _⟩ | ⟨_, _, e1, _⟩ <;>
+                      exact (fun h => by simp [mkTok, e1] at h)
+                · rw [if_neg h6] at he ⊢
+                  by_cases h7 : cls.isLetter r = true
+                  · rw [if_pos h7] at he ⊢
+                    simp only [asKeyword]
+                    split <;> exact (fun h => by simp [mkTok] at h)
+                  · rw [if_neg h7] at he
+                    simp at he
+
+/-- the token after an EOL token starts one line below it -/
+def EolNextRel (t u : Token) : Prop := t.ty = .eol → u.start.line = t.end_.line + 1
+
+theorem allTokensLoop_eolNext (cls : Cls) (hcls : ClsNL cls) (ff : Bool) :
+    ∀ (fuel : Nat) (c : Cur) (rest : List Rune) (toks : List Token) (errs : List LexErr)
+      (out : List Token) (pt : Option Token),
+      (∀ t, pt = some t → t.ty = .eol → c.nxt.line = t.end_.line + 1) →
+      allTokensLoop cls ff fuel c rest toks errs = .toks out →
+      ∃ new, out = toks ++ new ∧ AdjChain EolNextRel pt new := by
+  intro fuel
+  induction fuel with
+  | zero => intro c rest toks errs out pt _ h; unfold allTokensLoop at h; cases h
+  | succ fuel ih =>
+    intro c rest toks errs out pt hpt h
+    unfold allTokensLoop at h
+    simp only [] at h
+    cases hse : (nextToken cls c rest).err with
+    | some e =>
+      rw [hse] at h
+      simp only [] at h
+      split at h
+      · cases h
+      · split at h
+        · cases h
+        · exact (allTokensLoop_toks_no_errs cls ff _ _ _ _ _ _ h (by simp)).elim
+    | none =>
+      rw [hse] at h
+      simp only [] at h
+      have hl := nextToken_lines cls hcls c rest hse
+      split at h
+      · split at h
+        · cases h; exact ⟨[], by simp, trivial⟩
+        · cases h
+      · obtain ⟨new, h1, h2⟩ := ih _ _ _ _ _ (some (nextToken cls c rest).tok)
+          (fun t ht hty => by cases ht; exact nextToken_eol_nxt cls c rest hse hty) h
+        refine ⟨(nextToken cls c rest).tok :: new, by rw [h1]; simp, ⟨?_, h2⟩⟩
+        intro t ht hty
+        rw [hl.start, hpt t ht hty]
+
+theorem allTokens_eolNext (cls : Cls) (hcls : ClsNL cls) (ff : Bool) (src : List Rune)
+    (ts : List Token) (h : allTokens cls ff src = .toks ts) : AdjChain EolNextRel none ts := by
+  obtain ⟨new, h1, h2⟩ := allTokensLoop_eolNext cls hcls ff _ _ _ _ _ _ none
+    (fun t ht => by cases ht) h
+  simp at h1; subst h1
+  exact h2
+
+/-- after a token that is not an EOL the next token starts on its last line -/
+def LineAdjRel (t u : Token) : Prop := t.ty ≠ .eol → u.start.line = t.end_.line
+
+theorem adjChain_of_lineAdj : ∀ (l : List Token) (p : Option Token), LineAdj p l →
+    AdjChain LineAdjRel p l := by
+  intro l
+  induction l with
+  | nil => intro p _; trivial
+  | cons u us ih => intro p h; exact ⟨h.1, ih _ h.2⟩
+
+/-! ### the invariant with line facts -/
+
+def LineP (cls : Cls) (t : Token) : Prop :=
+  TokLitWF cls t ∧ ((t.ty = .comment ∨ t.ty = .eol) → t.end_.line = t.start.line)
+
+def LineR (t u : Token) : Prop := EolRel t u ∧ LineAdjRel t u ∧ EolNextRel t u
+
+theorem hyp_lines (cls : Cls) : Hyp cls (LineP cls) LineR := ⟨fun _ h => h.1, fun _ _ h => h.1⟩
+
+/-- `EOL DESCRIPTION` follows: `popDescLoop` goes on -/
+def DescCont (rest : List Token) : Prop :=
+  ∃ e d rs, rest = e :: d :: rs ∧ e.ty = .eol ∧ d.ty = .description
+
+theorem popDescLoop_end (n : Nat) : ∀ (rest toks : List Token) (last : Token), rest.length ≤ n →
+    last.ty = .description →
+    (popDescLoop toks last rest).2.2.prev = some (popDescLoop toks last rest).2.1 ∧
+      (popDescLoop toks last rest).2.1.ty = .description ∧
+      ¬ DescCont (popDescLoop toks last rest).2.2.rest := by
+  induction n with
+  | zero =>
+    intro rest toks last h hl
+    have : rest = [] := List.eq_nil_of_length_eq_zero (Nat.le_zero.mp h)
+    subst this
+    refine ⟨rfl, hl, ?_⟩
+    rintro ⟨e, d, rs, h1, _⟩
+    cases h1
+  | succ n ih =>
+    intro rest toks last h hl
+    match rest with
+    | [] =>
+      refine ⟨rfl, hl, ?_⟩
+      rintro ⟨e, d, rs, h1, _⟩
+      cases h1
+    | [x] =>
+      refine ⟨rfl, hl, ?_⟩
+      rintro ⟨e, d, rs, h1, _⟩
+      cases h1
+    | e :: d :: rs =>
+      unfold popDescLoop
+      split
+      · rename_i hc
+        exact ih rs _ d (by simp at h ⊢; omega) hc.2
+      · rename_i hc
+        refine ⟨rfl, hl, ?_⟩
+        rintro ⟨e', d', rs', h1, h2, h3⟩
+        cases h1
+        exact hc ⟨h2, h3⟩
+
+/-- what reading the stand-alone description `e` from `w` (arriving at `w'`) means -/
+def DescRead (w : W) (e : Description) (w' : W) : Prop :=
+  ∃ first rs, w.rest = first :: rs ∧ first.ty = .description ∧ e.span.start = first.start ∧
+    ∃ tl, w'.prev = some tl ∧ tl.ty = .description ∧ e.span.end_ = tl.end_ ∧ ¬ DescCont w'.rest
+
+theorem popDescription_exact {w : W} {d : Description} {w' : W} (h : popDescription w = .ok d w')
+    (hty : w.nextType = .description) : DescRead w d w' := by
+  have h' : WM.bind popToken (fun first w =>
+      let (toks, last, w1) := popDescLoop [first] first w.rest
+      WR.ok (mkDescription toks first last) w1) w = .ok d w' := h
+  unfold WM.bind at h'
+  cases hp : popToken w with
+  | fail e w1 => rw [hp] at h'; cases h'
+  | panic s => rw [hp] at h'; cases h'
+  | ok first w1 =>
+    rw [hp] at h'
+    simp only [] at h'
+    obtain ⟨p, rest⟩ := w
+    rcases popToken_ok hp with ⟨rs, h1, h2⟩ | ⟨h1, _, _⟩
+    · simp only at h1
+      subst h1; subst h2
+      have hfd : first.ty = .description := hty
+      have := popDescLoop_end rs.length rs [first] first (Nat.le_refl _) hfd
+      simp only at h'
+      generalize popDescLoop [first] first rs = res at h' this
+      obtain ⟨toks, last, w2⟩ := res
+      simp only [] at h' this
+      cases h'
+      exact ⟨first, rs, rfl, hfd, rfl, last, this.1, this.2.1, rfl, this.2.2⟩
+    · simp only at h1
+      subst h1
+      cases hty
+
+section Walker2
+variable {cls : Cls} {P : Token → Prop} {R : Token → Token → Prop}
+
+/-- a `none` round of the fragment loop reads exactly one EOL token -/
+theorem nextFragment_none_eol (fuel : Nat) (w : W) :
+    WP (nextFragment fuel) w (fun r w' => r = none → w.nextType ≠ .eof →
+      ∃ e rs, w.rest = e :: rs ∧ e.ty = .eol ∧ w' = ⟨some e, rs⟩) := by
+  unfold nextFragment
+  apply WP.getW_bind
+  split
+  · rename_i hty
+    refine WP.bind (P := fun _ _ => True) WP.true ?_
+    intro _ w1 _
+    exact WP.pure (fun _ hne => absurd hty hne)
+  · rename_i hty
+    refine WP.bind (P := fun t w' => (∃ rs, w.rest = t :: rs ∧ w' = ⟨some t, rs⟩) ∨
+      (w.rest = [] ∧ w' = w ∧ t.ty = .eof)) (fun t w' h => popToken_ok h) ?_
+    intro tok w1 hp
+    apply WP.pure
+    intro _ _
+    rcases hp with ⟨rs, h1, h2⟩ | ⟨h1, _, _⟩
+    · refine ⟨tok, rs, h1, ?_, h2⟩
+      obtain ⟨p, rest⟩ := w
+      simp only at h1; subst h1
+      exact hty
+    · obtain ⟨p, rest⟩ := w
+      simp only at h1; subst h1
+      cases hty
+  · refine WP.bind (P := fun _ _ => True) WP.true ?_
+    intro _ w1 _
+    exact WP.pure (fun h => by cases h)
+  · refine WP.bind (P := fun _ _ => True) WP.true ?_
+    intro _ w1 _
+    exact WP.pure (fun h => by cases h)
+  · refine WP.bind (P := fun _ _ => True) WP.true ?_
+    intro _ w1 _
+    exact WP.pure (fun h => by cases h)
+  · refine WP.bind (P := fun _ _ => True) WP.true ?_
+    intro _ w1 _
+    exact WP.pure (fun h => by cases h)
+  · refine WP.bind (P := fun _ _ => True) WP.true ?_
+    intro _ w1 _
+    exact WP.pure (fun h => by cases h)
+  · refine WP.bind (P := fun _ _ => True) WP.true ?_
+    intro _ w1 _
+    exact WP.pure (fun h => by cases h)
+  · exact failUnexpected_wp _ _ _
+
+/-- a stand-alone description fragment was read by `popDescription` at a DESCRIPTION token -/
+theorem nextFragment_desc (H : Hyp cls P R) (fuel : Nat) {w : W} (hw : WI P R w) :
+    WP (nextFragment fuel) w (fun r w' => ∀ e, r = some (.desc e) → DescRead w e w') := by
+  unfold nextFragment
+  apply WP.getW_bind
+  split
+  · refine WP.bind (P := fun _ _ => True) WP.true ?_
+    intro _ w1 _
+    exact WP.pure (fun e h => by cases h)
+  · refine WP.bind (P := fun _ _ => True) WP.true ?_
+    intro _ w1 _
+    exact WP.pure (fun e h => by cases h)
+  · refine WP.bind (P := fun _ _ => True) WP.true ?_
+    intro _ w1 _
+    exact WP.pure (fun e h => by cases h)
+  · refine WP.bind (P := fun _ _ => True) WP.true ?_
+    intro _ w1 _
+    exact WP.pure (fun e h => by cases h)
+  · refine WP.bind (P := fun _ _ => True) WP.true ?_
+    intro _ w1 _
+    exact WP.pure (fun e h => by cases h)
+  · rename_i hty
+    refine WP.bind (P := fun d w1 => DescRead w d w1) (fun d w1 h => popDescription_exact h hty) ?_
+    intro d w1 hd
+    apply WP.pure
+    intro e he
+    cases he
+    exact hd
+  · refine WP.bind (walkStatement_wp H fuel hw) ?_
+    intro f w1 hf
+    apply WP.pure
+    intro e he
+    cases he
+    exact absurd rfl (hf.2.2 e)
+  · refine WP.bind (walkStatement_wp H fuel hw) ?_
+    intro f w1 hf
+    apply WP.pure
+    intro e he
+    cases he
+    exact absurd rfl (hf.2.2 e)
+  · exact failUnexpected_wp _ _ _
+
+end Walker2
+
+/-! ### the fragment loop -/
+
+/-- where the walker stands after a stand-alone description that ended on line `L`:
+just behind it; one EOL later (and no description follows); at least two EOLs later -/
+def Phase (L : Nat) (w : W) : Prop :=
+  (∃ tl, w.prev = some tl ∧ tl.ty = .description ∧ tl.end_.line = L ∧ ¬ DescCont w.rest) ∨
+  (∃ e, w.prev = some e ∧ e.ty = .eol ∧ e.end_.line = L ∧ w.nextType ≠ .description) ∨
+  (∃ e, w.prev = some e ∧ e.ty = .eol ∧ L + 1 ≤ e.end_.line)
+
+theorem phase_step {cls : Cls} {L : Nat} {p : Option Token} {e : Token} {rs : List Token}
+    (hw : WI (LineP cls) LineR ⟨p, e :: rs⟩) (he : e.ty = .eol) (hph : Phase L ⟨p, e :: rs⟩) :
+    Phase L ⟨some e, rs⟩ := by
+  have hsingle : e.end_.line = e.start.line := (hw.1 e (by simp)).2 (Or.inr he)
+  rcases hph with ⟨tl, h1, h2, h3, h4⟩ | ⟨e0, h1, h2, h3, _⟩ | ⟨e0, h1, h2, h3⟩
+  · have hst : e.start.line = tl.end_.line := (hw.2.1 tl h1).2.1 (by rw [h2]; decide)
+    refine Or.inr (Or.inl ⟨e, rfl, he, by rw [hsingle, hst, h3], ?_⟩)
+    cases rs with
+    | nil => intro h; cases h
+    | cons d rs' =>
+      intro (hd : d.ty = .description)
+      exact h4 ⟨e, d, rs', rfl, he, hd⟩
+  · have hst : e.start.line = e0.end_.line + 1 := (hw.2.1 e0 h1).2.2 h2
+    exact Or.inr (Or.inr ⟨e, rfl, he, by rw [hsingle, hst, h3]; exact Nat.le_refl _⟩)
+  · have hst : e.start.line = e0.end_.line + 1 := (hw.2.1 e0 h1).2.2 h2
+    exact Or.inr (Or.inr ⟨e, rfl, he, by rw [hsingle, hst]; omega⟩)
+
+theorem phase_desc {cls : Cls} {L : Nat} {p : Option Token} {first : Token} {rs : List Token}
+    (hw : WI (LineP cls) LineR ⟨p, first :: rs⟩) (hf : first.ty = .description)
+    (hph : Phase L ⟨p, first :: rs⟩) : first.start.line > L + 1 := by
+  rcases hph with ⟨tl, h1, h2, _, _⟩ | ⟨e0, _, _, _, h4⟩ | ⟨e0, h1, h2, h3⟩
+  · have : first.ty = .eol := (hw.2.1 tl h1).1 (Or.inr h2)
+    rw [hf] at this; cases this
+  · exact absurd hf h4
+  · have hst : first.start.line = e0.end_.line + 1 := (hw.2.1 e0 h1).2.2 h2
+    omega
+
+theorem descGaps_cons2 (f g : Fragment) (rest : List Fragment) :
+    DescGaps (f :: g :: rest) ↔
+      ((∀ d e, f = .desc d → g = .desc e → e.span.start.line > d.span.end_.line + 1) ∧
+        DescGaps (g :: rest)) := Iff.rfl
+
+theorem descGaps_snoc : ∀ (frags : List Fragment) (f : Fragment), DescGaps frags →
+    (∀ d e, frags.getLast? = some (.desc d) → f = .desc e →
+      e.span.start.line > d.span.end_.line + 1) → DescGaps (frags ++ [f])
+  | [], _, _, _ => trivial
+  | [g], f, _, h => (descGaps_cons2 g f []).mpr ⟨fun d e hd he => h d e (by rw [hd]; rfl) he, trivial⟩
+  | g :: g' :: rest, f, hg, h =>
+    (descGaps_cons2 g g' (rest ++ [f])).mpr ⟨((descGaps_cons2 g g' rest).mp hg).1,
+      descGaps_snoc (g' :: rest) f ((descGaps_cons2 g g' rest).mp hg).2
+        (fun d e hd he => h d e (by rw [List.getLast?_cons_cons]; exact hd) he)⟩
+
+theorem walkFragmentsLoop_descGaps (cls : Cls) (pfuel : Nat) (fuel : Nat) :
+    ∀ (w : W) (frags : List Fragment) (errs : List Diag), WI (LineP cls) LineR w →
+    DescGaps frags → (∀ d, frags.getLast? = some (.desc d) → Phase d.span.end_.line w) →
+    ∀ out errs', walkFragmentsLoop true pfuel fuel w frags errs = .done out errs' →
+      DescGaps out := by
+  induction fuel with
+  | zero => intro w frags errs _ _ _ out errs' h; unfold walkFragmentsLoop at h; cases h
+  | succ fuel ih =>
+    intro w frags errs hw hdg hph out errs' h
+    unfold walkFragmentsLoop at h
+    split at h
+    · cases h; exact hdg
+    · rename_i hne
+      cases hnf : nextFragment pfuel w with
+      | panic s => rw [hnf] at h; cases h
+      | fail e w1 => rw [hnf] at h; simp at h
+      | ok r w1 =>
+        rw [hnf] at h
+        have hn := nextFragment_wp (hyp_lines cls) pfuel hw r w1 hnf
+        cases r with
+        | none =>
+          obtain ⟨e, rs, h1, h2, h3⟩ := nextFragment_none_eol pfuel w none w1 hnf rfl hne
+          obtain ⟨p, rest⟩ := w
+          simp only at h1; subst h1; subst h3
+          exact ih _ frags errs hn.1 hdg (fun d hd => phase_step hw h2 (hph d hd)) out errs' h
+        | some f =>
+          have hd := nextFragment_desc (hyp_lines cls) pfuel hw (some f) w1 hnf
+          refine ih w1 (frags ++ [f]) errs hn.1 (descGaps_snoc frags f hdg ?_) ?_ out errs' h
+          · intro d e hlast hfe
+            obtain ⟨first, rs, h1, h2, h3, _⟩ := hd e (by rw [hfe])
+            obtain ⟨p, rest⟩ := w
+            simp only at h1; subst h1
+            rw [h3]
+            exact phase_desc hw h2 (hph d hlast)
+          · intro d hlast
+            have hfd : f = .desc d := by simpa using hlast
+            obtain ⟨_, _, _, _, _, tl, t1, t2, t3, t4⟩ := hd d (by rw [hfd])
+            exact Or.inl ⟨tl, t1, t2, by rw [t3], t4⟩
+
+/-- **Part 2**: a stand-alone description directly after another one starts at least two lines
+below the end of the first -/
+theorem collectFragments_descGaps (cls : Cls) (hcls : ClsNL cls) (src : List Rune)
+    (frags : List Fragment) (h : collectFragments cls src = .ok frags) : DescGaps frags := by
+  unfold collectFragments at h
+  cases hts : allTokens cls true src with
+  | nofuel => rw [hts] at h; cases h
+  | errs es => rw [hts] at h; cases h
+  | toks ts =>
+    rw [hts] at h
+    simp only [] at h
+    cases hwf : walkFragments true ts with
+    | panic s => rw [hwf] at h; cases h
+    | hadErrors es => rw [hwf] at h; cases h
+    | done out es =>
+      rw [hwf] at h
+      cases h
+      unfold walkFragments at hwf
+      obtain ⟨hadj, hsingle⟩ := allTokens_lines cls hcls true src ts hts
+      have hw : WI (LineP cls) LineR ⟨none, ts⟩ :=
+        ⟨fun t ht => ⟨allTokens_tokwf cls true src ts hts t ht, hsingle t ht⟩,
+          AdjChain.and _ _ (allTokens_eolAfter cls true src ts hts)
+            (AdjChain.and _ _ (adjChain_of_lineAdj _ _ hadj)
+              (allTokens_eolNext cls hcls true src ts hts))⟩
+      exact walkFragmentsLoop_descGaps cls _ _ ⟨none, ts⟩ [] [] hw trivial
+        (fun d hd => by cases hd) _ _ hwf
 
 end J5V.Bcl
